@@ -38,6 +38,43 @@ Justified(p, n, as, a) ==
 
 I02(p, n, as, res) == \A i \in DOMAIN res : Justified(p, n, as, res[i])
 
+\* --- C07 (one tag): an attribute the policy allows as it stands ---------------------------
+StyleCanon(p, n, v) == /\ ~Css(v).err /\ Css(v).decls # <<>>
+                       /\ KeptDecls(p, n, v) = Css(v).decls
+                       /\ FilterStyle(p, n, v) = v
+
+AttrConf(p, n, a) ==
+  IF p.dataAttrs /\ IsData(a.k) THEN TRUE
+  ELSE IF a.k = "style" /\ HasStyleRules(p, n) THEN StyleCanon(p, n, a.v)
+  ELSE /\ RuleAccepts(p, n, a.k, a.v)
+       /\ (UrlPos(n, a.k) /\ p.parseable) =>
+             (ValidURL(p, a.v) /\ Url(a.v).norm = a.v /\ ~(n \in SrcEls /\ p.rewriter # ""))
+
+NoDupKeys(as) == \A i, j \in DOMAIN as : as[i].k = as[j].k => i = j
+
+\* attributes the sanitiser is instructed to add or rewrite are left out of the comparison
+StripForced(p, n, as) == SelectSeq(as, LAMBDA a : ~(Forced(p, n, a) \/ (a.k = "target" /\ p.targetBlank /\ n = "a")))
+
+\* conforming attributes pass the pipeline unchanged except for forced attributes
+I07attrs(p, n, as, res) ==
+  (as # <<>> /\ NoDupKeys(as) /\ \A i \in DOMAIN as : AttrConf(p, n, as[i])) =>
+      StripForced(p, n, res) = StripForced(p, n, as)
+
+\* rules are additive: a value accepted by any one of the rules covering the attribute is kept by the allowlist stage
+AnyOf(p, n, as) == \A i \in DOMAIN as :
+    (~(as[i].k = "style" /\ HasStyleRules(p, n)) /\ RuleAccepts(p, n, as[i].k, as[i].v)) => InSeq(as[i], Stage1(p, n, as))
+
+\* --- C20 (one tag): the pipeline is idempotent on its own output for policies in the class -------
+RewrittenKeys == {"href", "cite", "src", "rel", "target", "crossorigin", "sandbox"}
+OnlyAny(row) == \A k \in DOMAIN row : k \in RewrittenKeys => row[k] \subseteq {AnyId}
+RawNames == {"iframe", "noembed", "noframes", "noscript", "plaintext", "script", "style", "textarea", "title", "xmp"}
+InClass20(p) == /\ ~p.unsafe /\ ~p.comments /\ p.rewriter = ""
+                /\ \A n \in RawNames : ~Known(p, n)
+                /\ \A el \in DOMAIN p.elAttrs : OnlyAny(p.elAttrs[el])
+                /\ \A pat \in DOMAIN p.patAttrs : OnlyAny(p.patAttrs[pat])
+                /\ OnlyAny(p.globalAttrs)
+I20attrs(p, n, res) == (InClass20(p) /\ res # <<>>) => SanitizeAttrs(p, n, res) = res
+
 \* --- C03 --------------------------------------------------------------------
 SchemeAllowed(p, s) == s \in DOMAIN p.schemes \/ \E r \in p.schemePats : SchemePatMatch(r, s)
 
